@@ -253,5 +253,14 @@ CHECKS["C21"] = dict(
     design_ref="DESIGN.md §5 C21", note=SEM_NOTE + " MAP (tasks/map.py) is not decided. LocalSearch bounds: N<=3 decisions, scores 0..3.",
     technique="TLA+ model of the local search checked exhaustively by TLC + replay of the real search on scripted scores + TLA+ EU oracle")
 
+CHECKS["C31"] = dict(
+    category="translation_validation",
+    text="For evidence-free generated programs the network built by the bn task (formula_to_bn on the LogicDAG, OrCPTs expanded "
+         "by the tool's own to_factor) is recorded; JudgeBN.tla checks that every CPT row is a distribution, that the network is "
+         "well formed and acyclic, multiplies the CPTs out exactly and compares the marginal of every exported query variable "
+         "with the exact probability from Semantics.tla.",
+    design_ref="DESIGN.md §5 C31", note=SEM_NOTE + " CPT entries must be multiples of 0.1; <= 8 non-deterministic CPTs.",
+    technique="translation validation of the exported network by TLC against the TLA+ distribution semantics")
+
 NOT_YET = "check not built yet in this round (planned in DESIGN.md §5); not claimed"
 NOT_APPLICABLE = {}
